@@ -574,7 +574,7 @@ func (pr *PathRun) Decide(cond *Term) bool {
 		return val
 	}
 	ex := pr.w.ex
-	if pr.hasMod {
+	if pr.hasMod && !cond.hasUF {
 		if sym, tset, fset, ok := pr.domainSplit(cond); ok {
 			atomic.AddInt64(&ex.stats.DomainDecisions, 1)
 			if ex.crossCheck(pr) {
@@ -737,7 +737,7 @@ func (pr *PathRun) Assume(cond *Term) {
 	pr.assertSide(cond, true)
 	pr.record(Event{1, false})
 	pr.setDecided(cond, true)
-	if pr.hasMod && pr.ev.EvalBool(cond) {
+	if pr.hasMod && !cond.hasUF && pr.ev.EvalBool(cond) {
 		return
 	}
 	s := pr.solver()
@@ -785,7 +785,7 @@ func (pr *PathRun) Prove(cond *Term) (bool, *Evaluator) {
 		return true, nil
 	}
 	atomic.AddInt64(&ex.stats.Obligations, 1)
-	if pr.hasMod && !pr.ev.EvalBool(cond) {
+	if pr.hasMod && !cond.hasUF && !pr.ev.EvalBool(cond) {
 		return false, pr.ev
 	}
 	r, m, bg := pr.checkSide(cond, false)
@@ -838,7 +838,8 @@ func (pr *PathRun) Concretize(t *Term) uint64 {
 		return e.Val
 	}
 	ex := pr.w.ex
-	if pr.hasMod {
+	useMod := pr.hasMod && !t.hasUF
+	if useMod {
 		if v, ok := pr.concretizeByDomain(t); ok {
 			return v
 		}
@@ -854,7 +855,7 @@ func (pr *PathRun) Concretize(t *Term) uint64 {
 	var alts []alt
 	mark := tt.Mark()
 	emark := 0
-	if pr.hasMod {
+	if useMod {
 		emark = pr.ev.Mark()
 		alts = append(alts, alt{pr.ev.Eval(t), pr.ev.model, pr.ev.big})
 	}
@@ -888,6 +889,7 @@ func (pr *PathRun) Concretize(t *Term) uint64 {
 	if pr.hasMod {
 		pr.ev.Rollback(emark)
 	}
+	_ = emark
 	if unknown {
 		atomic.AddInt64(&ex.stats.Unknown, 1)
 	}
@@ -898,7 +900,7 @@ func (pr *PathRun) Concretize(t *Term) uint64 {
 	if len(alts) == 1 && !unknown {
 		tt.Eq(t, tt.Const(t.sort, alts[0].v))
 		pr.record(Event{alts[0].v, true})
-		if !pr.hasMod {
+		if !useMod {
 			pr.setModel(alts[0].m, alts[0].bg)
 		}
 		return alts[0].v
@@ -908,7 +910,7 @@ func (pr *PathRun) Concretize(t *Term) uint64 {
 	}
 	pr.assertFresh(tt.Eq(t, tt.Const(t.sort, alts[0].v)))
 	pr.record(Event{alts[0].v, false})
-	if !pr.hasMod {
+	if !useMod {
 		pr.setModel(alts[0].m, alts[0].bg)
 	}
 	return alts[0].v
